@@ -284,8 +284,10 @@ def is_self_option_unwrapped(t, field):
     return is_call(v) and v[1] in OPTION_VIEWS and strip_ref(v[2][0]) == ("field", ("deref", ("param", 0)), field)
 
 
-def check_helper(ctx, rule, key, h, rules=None):
-    """closure argument order and structure source for one public helper (all-inlined view of the helper)"""
+def check_helper(ctx, rule, key, h, rules=None, guards_only=False):
+    """closure argument order and structure source for one public helper (all-inlined view of the helper).
+    guards_only (C19): of the structure's routing only the refusal guard of the detached variants is judged - the documented
+    panic of the builder call - not which structure is signed"""
     prog = ctx.prog.view("all")
     if key not in prog.fns:
         ctx.ob(rule, "helper:%s" % key, False, "%s exists" % key, kind="missing-anchor")
@@ -309,7 +311,8 @@ def check_helper(ctx, rule, key, h, rules=None):
     if a is None or not (struct_t is not None and is_call(struct_t) and struct_t[1] == a[0][0]):
         problems.append("last closure argument is %s, expected the bytes of the structure function" % (show(struct_t)[:80] if struct_t else None))
     else:
-        problems.extend(entry_problems(prog, key, a))
+        ep = entry_problems(prog, key, a)
+        problems.extend([p_ for p_ in ep if "detached payload" in p_] if guards_only else ep)
     if kind == "verify":
         stored = strip_deref_call(args[0]) if len(args) == 2 else None
         if h["stored"].startswith("signatures["):
